@@ -317,6 +317,13 @@ class SpecError(Exception):
     """Malformed contract."""
 
 
+class FnChoice:
+    """A callable that is `a` where cond holds and `b` otherwise (two known functions merged at a join)."""
+
+    def __init__(self, cond, a, b):
+        self.cond, self.a, self.b = cond, a, b
+
+
 # ---- merging at joins
 def merge(c, a: V, b: V) -> V:
     """ite(c, a, b) on values."""
@@ -331,7 +338,7 @@ def merge(c, a: V, b: V) -> V:
             items = [merge(c, x, y) for x, y in zip(a.meta, b.meta)]
             return TupV(items)
         if ka == KFn and a.meta is not b.meta:
-            meta = None
+            meta = FnChoice(c, a, b) if (a.meta is not None and b.meta is not None) else None
         return V(ka, z3.If(c, a.term, b.term), meta)
     if isinstance(ka, KList) and isinstance(kb, KList):
         if a.meta == 'empty':
